@@ -10,7 +10,7 @@ A git worktree of /repo's HEAD is kept under /tmp/fvh-mut/repo (with its own car
 """
 import os, subprocess, sys, shutil
 
-ROOT = "/tmp/fvh-mut"
+ROOT = os.environ.get("VERIF_MUT_ROOT", "/tmp/fvh-mut")
 WT = ROOT + "/repo"
 VERIF = os.path.dirname(os.path.dirname(os.path.abspath(__file__)))
 
